@@ -1,6 +1,6 @@
 //! Chain tracker explorer (legs B and C for C13).
 //!
-//!   tracker explore --cfg cfg.json --alphabet alphabet.json --out DIR [--threads 8]
+//!   tracker explore --cfg cfg.json --alphabet alphabet.json --out DIR [--threads 8] [--max-states N]
 //!        exhaustive breadth-first exploration of the REAL `ChainTracker<ChainMonitor>`:
 //!        every request of the (TLC generated) alphabet is applied to every discovered
 //!        state inside the height bound; after every refused request the alphabet's probe
@@ -17,6 +17,7 @@
 //!   link  tip | fork          header's prev hash = current tip / something else
 //!   pow   ok | bad            block hash under / above its own target
 //!   db    int                 bits level delta relative to the previous header (target >> db)
+//!   t     same | late         header time = previous header's / more than 20 minutes later
 //!   c     e | f1 | d1 | f2 | d2   block content: empty / funding tx of channel k / double-spend
 //!                             of channel k's funding input
 //!   kind  compact | stream | streamOther | streamTrunc | block
@@ -25,6 +26,7 @@
 //!   prev  right | zerofh | wrongfh | wronghdr     (rm) supplied previous headers
 //!   need  [outpoint names]    request is applied only where these are forward watches
 //!   probe 0|1                 use as "later correct request" probe
+//!   pq    0|1                 apply the probes after this request when it is refused
 use std::collections::{HashMap, VecDeque};
 use std::sync::{Arc, Condvar, Mutex};
 
@@ -272,11 +274,12 @@ impl World {
     }
 
     /// the block  parent.token  (memoized; deterministic mining)
-    fn mk_block(&self, parent: &BlockInfo, c: &str, db: i64, pow_bad: bool, salt: u32) -> Arc<BlockInfo> {
+    fn mk_block(&self, parent: &BlockInfo, c: &str, db: i64, pow_bad: bool, late: bool, salt: u32) -> Arc<BlockInfo> {
         let token = format!(
-            "{}{}{}",
+            "{}{}{}{}",
             c,
             if db == 0 { "".to_string() } else { format!("{:+}", db) },
+            if late { "@" } else { "" },
             if pow_bad { "!" } else { "" }
         );
         let key = (parent.hash, token.clone(), salt);
@@ -286,7 +289,8 @@ impl World {
         let mut txs = vec![coinbase(1)];
         txs.extend(self.content_txs(c));
         let lvl = parent.lvl + db;
-        let block = build_block(parent.hash, txs, self.lvl_bits(lvl), salt, pow_bad);
+        let time = parent.block.header.time + if late { 20 * 60 + 1 } else { 0 } + salt;
+        let block = build_block(parent.hash, txs, self.lvl_bits(lvl), time, pow_bad);
         assert_eq!(block.header.validate_pow(block.header.target()).is_err(), pow_bad);
         let fh = BlockSpendFilter::from_block(&block).filter_header(&parent.fh);
         let info = Arc::new(BlockInfo {
@@ -593,13 +597,13 @@ fn exec(w: &World, t: &mut Tracker, r: &Value) -> Resp {
     let before;
     if r["op"] == "add" {
         let parent = if r["link"] == "tip" { tip_info.clone() } else { parent_of_tip.clone() };
-        let b = w.mk_block(&parent, r["c"].as_str().unwrap(), r["db"].as_i64().unwrap(), r["pow"] == "bad", 0);
+        let b = w.mk_block(&parent, r["c"].as_str().unwrap(), r["db"].as_i64().unwrap(), r["pow"] == "bad", r["t"] == "late", 0);
         let height = t.height + 1;
         let atts = attestations(w, r, b.hash, parent.hash, height, b.fh);
         let (txids, ops) = t.get_all_forward_watches();
         let proof = make_proof(r, atts, &b.block, &txids, &ops);
         if kind.starts_with("stream") {
-            let sb = if kind == "streamOther" { w.mk_block(&parent, r["c"].as_str().unwrap(), r["db"].as_i64().unwrap(), false, 1) } else { b.clone() };
+            let sb = if kind == "streamOther" { w.mk_block(&parent, r["c"].as_str().unwrap(), r["db"].as_i64().unwrap(), false, r["t"] == "late", 1) } else { b.clone() };
             if let Err(p) = stream(t, &sb.block, kind == "streamTrunc") {
                 return Resp { ok: 2, err: 7, chg: 0, msg: p };
             }
@@ -619,7 +623,7 @@ fn exec(w: &World, t: &mut Tracker, r: &Value) -> Resp {
             _ => Headers(w.unrelated.block.header, w.unrelated.fh),
         };
         if kind.starts_with("stream") {
-            let sb = if kind == "streamOther" { w.mk_block(&parent_of_tip, &tip_info.c, tip_info.lvl - parent_of_tip.lvl, false, 1) } else { tip_info.clone() };
+            let sb = if kind == "streamOther" { w.mk_block(&parent_of_tip, &tip_info.c, tip_info.lvl - parent_of_tip.lvl, false, false, 1) } else { tip_info.clone() };
             if let Err(p) = stream(t, &sb.block, kind == "streamTrunc") {
                 return Resp { ok: 2, err: 7, chg: 0, msg: p };
             }
@@ -641,33 +645,41 @@ struct Shared {
     seen: HashMap<String, u64>,
     active: usize,
     states: u64,
+    capped: bool,
 }
 
-fn intern(shared: &(Mutex<Shared>, Condvar), w: &World, t: &Tracker) -> u64 {
+/// id of the state the tracker is in (a new state is queued for expansion); -2 when the state is
+/// new and the exploration's state budget is used up
+fn intern(shared: &(Mutex<Shared>, Condvar), w: &World, t: &Tracker, max_states: u64) -> i64 {
     let key = full_key(&digests(t));
     let mut g = shared.0.lock().unwrap();
     if let Some(i) = g.seen.get(&key) {
-        return *i;
+        return *i as i64;
+    }
+    if g.states >= max_states {
+        g.capped = true;
+        return -2;
     }
     let i = g.states;
     g.seen.insert(key, i);
     g.states += 1;
     g.queue.push_back((i, Arc::new(w.snap(t))));
     shared.1.notify_one();
-    i
+    i as i64
 }
 
 fn explore() {
     let cfg = Cfg::load(&arg("cfg").unwrap());
     let alphabet: Vec<Value> = serde_json::from_str(&std::fs::read_to_string(arg("alphabet").unwrap()).unwrap()).unwrap();
     let threads = arg_u64("threads", 8) as usize;
+    let max_states = arg_u64("max-states", 20_000);
     let out = arg("out").unwrap();
     std::fs::create_dir_all(&out).unwrap();
     let w = Arc::new(World::new(cfg));
-    let shared = Arc::new((Mutex::new(Shared { queue: VecDeque::new(), seen: HashMap::new(), active: 0, states: 0 }), Condvar::new()));
+    let shared = Arc::new((Mutex::new(Shared { queue: VecDeque::new(), seen: HashMap::new(), active: 0, states: 0, capped: false }), Condvar::new()));
     {
         let t = w.init_tracker();
-        intern(&shared, &w, &t);
+        intern(&shared, &w, &t, max_states);
         std::fs::write(
             format!("{}/init.json", out),
             serde_json::to_string(&json!({"init": w.project(&t), "max_reorg": Tracker::MAX_REORG_SIZE})).unwrap(),
@@ -720,10 +732,10 @@ fn explore() {
                         }
                         let mut t = w.restore(&pre);
                         let resp = exec(&w, &mut t, r);
-                        let to: i64 = if resp.ok == 2 { -1 } else { intern(&shared, &w, &t) as i64 };
+                        let to: i64 = if resp.ok == 2 { -1 } else { intern(&shared, &w, &t, max_states) };
                         if resp.ok == 1 {
                             okreq[ri] = true;
-                        } else if resp.ok == 0 {
+                        } else if resp.ok == 0 && r["pq"] != 0 {
                             refused.push(ri);
                         }
                         if resp.ok == 2 || (resp.ok == 0 && resp.chg != 0) {
@@ -743,7 +755,7 @@ fn explore() {
                             let rq = exec(&w, &mut t, &alphabet[*qi]);
                             assert_eq!(rq.ok, 0, "refused request is deterministic");
                             let resp = exec(&w, &mut t, r);
-                            let to: i64 = if resp.ok == 2 { -1 } else { intern(&shared, &w, &t) as i64 };
+                            let to: i64 = if resp.ok == 2 { -1 } else { intern(&shared, &w, &t, max_states) };
                             if resp.ok != 1 {
                                 od.put(&json!({"node": pre_id, "qi": qi + 1, "ri": ri + 1, "q": alphabet[*qi], "req": r, "msg": resp.msg}));
                             }
@@ -772,7 +784,7 @@ fn explore() {
         probes += p;
     }
     let g = shared.0.lock().unwrap();
-    println!("{}", json!({"states": g.states, "edges": edges, "probes": probes, "max_reorg": Tracker::MAX_REORG_SIZE}));
+    println!("{}", json!({"states": g.states, "edges": edges, "probes": probes, "max_reorg": Tracker::MAX_REORG_SIZE, "capped": g.capped}));
 }
 
 /// replay request sequences, each on one long-lived tracker object; one record per step
